@@ -1,11 +1,17 @@
 (* Properties/C09.v — Merging files keeps each file's content and yields their union in any load order
    (and the load half of C11: a rejected load has no effect).
-   Only statements; every proof is `exact <lemma>` (lemmas: Tree/LoadProofs.v, Tree/LoadProofsWalk.v, Tree/LoadProofsRefuted.v).
+   Only statements; every proof is `exact <lemma>` (lemmas: Tree/LoadProofs.v, Tree/LoadProofsWalk.v, Tree/LoadProofsRefuted.v,
+   Tree/MergePureProofs*.v).
 
    Model      : Tree/Load.v — load_buffer_internal, merge_file_data, merge_element (the positional two-pointer walk
                 `walk` with `merge_action`, calc_identifiables_merge, calc_element_merge, find_merge_partner),
                 import_new_items, merge_sub_elements, the rollback, the overlap check and the index fills, over the
                 abstract tables T (any table set) and the parser model Xml/Parser.v.
+   Pure merge : Tree/MergePure.v — [pmerge]: merge_element on pure trees (element trees with the local membership of
+                every element) with the SAME walk (Load.walk); the model runner evaluates MergePure.check_load for every
+                load of the correspondence streams: heap merge (read back with MergeSpec.abs) = pure merge.  This
+                equality is validated, not proved: it is what C09_full (Tree/MergePureProofsKeys.v, stated, not
+                proved) needs beyond the theorems below, together with the classes outside [Good].
    Spec side  : Tree/MergeSpec.v — masters with an assignment of elements to files ([mtree]), partial views
                 ([project], [split]), ancestor-closed assignments that split only below splittable parents
                 ([Splittable]), the merged model read back from the heap ([abs_model]) and what it must be
@@ -19,7 +25,8 @@
    parent are merged by position (known finding C09-unnamed-below-splittable, outside the class of the theorems:
    they have no key). *)
 From AV Require Import Base.Bytes Base.Outcome Hash.HashModel Tree.Heap Tree.Ops Tree.Script Tree.Load Tree.Observe
-  Tree.MergeSpec Tree.LoadProofs Tree.LoadProofsWalk Tree.LoadProofsRefuted.
+  Tree.MergeSpec Tree.MergePure Tree.LoadProofs Tree.LoadProofsWalk Tree.LoadProofsRefuted
+  Tree.MergePureProofsBase Tree.MergePureProofs Tree.MergePureProofsMain Tree.MergePureProofsKeys.
 From AV Require Xml.Lexer Xml.Parser.
 Open Scope N_scope.
 
@@ -85,6 +92,66 @@ Theorem C09_conflict_rejected :
     (exists b, In b lb0 /\ has_partner la0 b = false) ->
     merge_element T LATEST name_definition_ref (S f) pa files pb nf w = Val (ER InvalidFileMerge, w).
 Proof. exact merge_element_conflict. Qed.
+
+(* ---- one merge [U], pure level: t is any master of the class Good (every element starts with its SHORT-NAME or is
+        unnamed; an element is a leaf, or has sub-elements only; the sub-elements are all in the files of the parent,
+        or the parent is a bag — unnamed, bag content, splittable — and they are in any subset; keys unique per parent;
+        all files of one version v).  If `a` is the merged model of the files F (Rep: every element that is in some
+        file of F exactly once, below bags in ANY order, local membership normalised) and g is a new file that has the
+        element, then merging the view of g into `a` succeeds and gives the merged model of g :: F. *)
+Theorem C09_merge_step :
+  forall (T : tables) (LATEST defref v : N) (fver : N -> option N), (forall f, fver f = Some v) ->
+  forall (fuel : nat) (t : mtree), (depth t < fuel)%nat -> Good T defref v t ->
+  forall (F : list N) (g : N) (inh : option (list N)) (a : htree),
+    ~ In g F -> In g (mfiles t) -> Rep T F inh t a ->
+    exists a', pmerge T LATEST defref fver fuel a (inF F (mfiles t)) (pview g t) g = Val (OK a') /\
+               h_local a' = h_local a /\
+               forall inh', Rep T (g :: F) inh' t (h_set_local a' (norm inh' (inF (g :: F) (mfiles t)))).
+Proof. exact pmerge_rep. Qed.
+
+(* ---- the union [U], pure level: loading the partial views of a master of the class Good in the files g0, gs — ANY
+        distinct files that together contain every element, in ANY order — yields the master up to the order of
+        siblings: every element exactly once, local membership = the files that contain it (empty = inherited).
+        (pview g t is the parsed view: pview_project.) *)
+Theorem C09_merge_union_partial :
+  forall (T : tables) (LATEST defref v : N) (fver : N -> option N), (forall f, fver f = Some v) ->
+  forall (fuel : nat) (t : mtree) (g0 : N) (gs : list N),
+    (depth t < fuel)%nat -> Good T defref v t ->
+    NoDup (g0 :: gs) -> (forall g, In g (g0 :: gs) -> In g (mfiles t)) -> covers (g0 :: gs) t ->
+    exists a, load_all_pure T LATEST defref fver fuel t [g0] (first_view g0 t) gs = Val (OK a) /\
+              Rep T (rev gs ++ [g0]) None t a /\ hperm a (expected None t).
+Proof. exact pure_union. Qed.
+
+Theorem C09_view_is_projection :
+  forall (n : nat) (t : mtree), (depth t <= n)%nat -> forall (g : N) (e : Parser.etree),
+    project g t = Some e -> htree_of_etree e = pview g t.
+Proof. exact pview_project. Qed.
+
+(* the semantic hypothesis of the class (the merge key of a sub-element is the same in every view) follows from the
+   shape of the master *)
+Theorem C09_key_of_named_element :
+  forall (T : tables) (defref : N) (pty : N * N) (name : N) (ty : N * N) (attrs : list (N * Parser.cdata))
+         (rest : list (mtree + Parser.cdata)) (comment : option (list N)) (files : list N) (idx : list N) (sub : N * N)
+         (tys : N * N) (nm : list N) (sattrs : list (N * Parser.cdata)) (scomment : option (list N)),
+    is_named T ty = Val true -> content_mode T tys = Val MCharacters ->
+    find_sub_element T pty name 4294967295 = Val (Some (sub, idx)) -> files <> [] ->
+    (forall c, In c (kids rest) -> m_name c <> defref) -> name_short_name T <> defref ->
+    KeyStable T defref pty
+      (MNode name ty attrs (inl (MNode (name_short_name T) tys sattrs [inr (Parser.DString nm)] scomment files) :: rest) comment files)
+      (mkCore name true (Some nm) None idx).
+Proof. exact keystable_named. Qed.
+
+Theorem C09_key_of_unnamed_element :
+  forall (T : tables) (defref : N) (pty : N * N) (name : N) (ty : N * N) (attrs : list (N * Parser.cdata))
+         (content : list (mtree + Parser.cdata)) (comment : option (list N)) (files : list N) (idx : list N) (sub : N * N),
+    is_named T ty = Val false -> find_sub_element T pty name 4294967295 = Val (Some (sub, idx)) ->
+    (forall c, In c (kids content) -> m_name c <> defref) ->
+    KeyStable T defref pty (MNode name ty attrs content comment files) (mkCore name false None None idx).
+Proof. exact keystable_unnamed. Qed.
+
+(* non-vacuity of the class: the tiny master is in it, and the union theorem applies to it *)
+Theorem C09_class_nonvacuous : Good TinyM.tiny TinyM.DEFREF 2 TinyM.master.
+Proof. exact TinyGood.master_good. Qed.
 
 (* ---- non-vacuity: the two partial views of a master over the tiny table set merge to the master *)
 Theorem C09_example_merge_01 :
